@@ -116,6 +116,24 @@ def main(run: Run):
     run.functions["amaranth_soc.gpio.Peripheral.elaborate"] = "per-configuration (bounded: pin count, widths, input_stages); flattened with the real bridge/registers/field actions"
     run.functions["amaranth_soc.gpio.Peripheral.Output._FieldAction.elaborate"] = "per-configuration, inside the flattened peripheral"
     run_configs(run, __name__, cfgs, must_accept=must_accept)
+    # L1: the statements issued for one arbitrary pin of any pin count, with a synchroniser of any depth (recording hardware stubs)
+    from ..pyvc.driver import discharge_all
+    from ..pyvc.engine import Unsupported
+    from ..common import BASE_ASSUMPTIONS_L1
+    try:
+        from contracts import gpio_l1
+        fv = gpio_l1.verify_gpio_elaborate()
+        run.functions["amaranth_soc.gpio.Peripheral.elaborate [statements issued, any pin count and synchroniser depth]"] = \
+            f"proved ({fv.paths} paths, {len(fv.obs)} obligations)"
+        run.require("gpio.Peripheral.elaborate::input-field-reads-the-end-of-the-chain", "gpio.Peripheral.elaborate::alternate:flag-raised-only-there",
+                    "gpio.Peripheral.elaborate::nothing-else-per-pin")
+        run.assumptions += BASE_ASSUMPTIONS_L1 + [
+            "gpio.Peripheral.elaborate contract: Amaranth objects are recording stubs (statements issued for one arbitrary pin, synchroniser loop by "
+            "invariant); their hardware meaning is Amaranth's semantics (assumed; checked per configuration by the hdlvc clauses)"]
+        discharge_all(run, fv.obs, timeout_ms=10000)
+    except Unsupported as e:
+        run.functions["amaranth_soc.gpio.Peripheral.elaborate [statements issued]"] = f"unsupported: {e} (the per-configuration clauses decide)"
+        run.bounded_notes.append(f"gpio.Peripheral.elaborate: outside the pyvc subset on this tree ({e}); per-configuration clauses decide")
     return run.finish(
         explanation="GPIO contract on the flattened peripheral: mode table, exact input delay (k-step from any state), set/clear "
                     "code table and direct write, mode write, reset, register packing - every clause with all other pins' signals "
